@@ -178,6 +178,8 @@ func (p *instancePool) warmUpGun(ctx context.Context) error {
 }
 
 type poolAsyncRunHandle struct {
+	// Pool Run context. Canceled when Run returns, or when Run caller cancels it.
+	poolCtx             context.Context
 	runCtx              context.Context
 	runCancel           context.CancelFunc
 	instanceStartCtx    context.Context
@@ -190,9 +192,9 @@ type poolAsyncRunHandle struct {
 	runRes chan instanceRunResult
 }
 
-func (p *instancePool) runAsync(runCtx context.Context) (*poolAsyncRunHandle, error) {
+func (p *instancePool) runAsync(poolCtx context.Context) (*poolAsyncRunHandle, error) {
 	// Canceled in case all instances finish, fail or run runCancel.
-	runCtx, runCancel := context.WithCancel(runCtx)
+	runCtx, runCancel := context.WithCancel(poolCtx)
 	_ = runCancel
 	// Canceled also on out of ammo, and finish of shared RPS schedule.
 	instanceStartCtx, instanceStartCancel := context.WithCancel(runCtx)
@@ -222,6 +224,7 @@ func (p *instancePool) runAsync(runCtx context.Context) (*poolAsyncRunHandle, er
 		startRes <- startResult{started, err}
 	}()
 	return &poolAsyncRunHandle{
+		poolCtx:             poolCtx,
 		runCtx:              runCtx,
 		runCancel:           runCancel,
 		instanceStartCtx:    instanceStartCtx,
@@ -317,10 +320,13 @@ func (ah *runAwaitHandle) awaitRun() {
 }
 
 func (ah *runAwaitHandle) onErrAwaited(err error) {
+	// awaitErr has no reader only after pool Run returned, and that cancels poolCtx.
+	// runCtx can't be used here: it is canceled as soon as all instances finish, while pool Run
+	// still awaits provider and aggregator results, whose errors must not be lost.
 	select {
 	case ah.awaitErr <- err:
-	case <-ah.runCtx.Done():
-		if err != ah.runCtx.Err() {
+	case <-ah.poolCtx.Done():
+		if err != ah.poolCtx.Err() {
 			ah.log.Debug("Error suppressed after run cancel", zap.Error(err))
 		}
 	}
